@@ -133,6 +133,7 @@ func (t *HtmlScanner) readText() (tok *Token, err error) {
 		nameBuf  bytes.Buffer           // 闭合标签名 用于和 closeTag 匹配
 	)
 	for {
+		before := t.pos // 读取当前字符之前的位置
 		if err := t.NextRune(); err != nil {
 			if errors.Is(err, io.EOF) {
 				return t.addToken(&Token{
@@ -155,6 +156,7 @@ func (t *HtmlScanner) readText() (tok *Token, err error) {
 				tagBuf.Reset()
 				nameBuf.Reset()
 				closing = true
+				end = before // 如果这是结束标签 文本在这个 < 之前结束(之前可能有未匹配成功的 <x)
 			}
 			if !closing {
 				// 记录结束标签前一个位置
